@@ -2151,3 +2151,378 @@ Proof.
     rewrite (obj_frag_not_uses _ _ _ a Fa), (obj_frag_not_uses _ _ _ b Fb); simpl;
     [apply andb_false_r | reflexivity].
 Qed.
+
+
+(* ====================================================================== fuel stability of the merge on [obj_frag]:
+   once the outcome is defined (Ok or never) more fuel does not change it *)
+Definition mdef {A} (r : mres A) : bool := match r with MOk _ | MNever => true | _ => false end.
+
+Lemma mbind_ext {A B} (r r' : mres A) (k k' : A -> mres B) :
+  (mdef r = true -> r' = r) ->
+  (forall x, r = MOk x -> mdef (k x) = true -> k' x = k x) ->
+  mdef (mbind r k) = true -> mbind r' k' = mbind r k.
+Proof.
+  intros Hr Hk H. destruct r as [x| | |]; simpl in H; try discriminate H.
+  - rewrite (Hr eq_refl). simpl. apply Hk; [reflexivity | exact H].
+  - rewrite (Hr eq_refl). reflexivity.
+Qed.
+
+Lemma mdef_or_false r : mdef (or_false r) = mdef r.
+Proof. destruct r; reflexivity. Qed.
+
+Lemma shape_cases' wa tm ik items ai :
+  shape_b wa tm ik items ai = true ->
+  (ik = ItemsAbsent /\ items = [] /\ ai = None)
+  \/ (ik = ItemsSingle /\ (exists s, items = [s]) /\ ai = None /\ wa = true /\ tm = false)
+  \/ (ik = ItemsTuple /\ wa = true /\ tm = true).
+Proof.
+  unfold shape_b. destruct ik, items as [|s [|]], ai, wa, tm; simpl; intros H; try discriminate H;
+    try (left; repeat split; reflexivity);
+    try (right; left; repeat split; eauto; fail);
+    try (right; right; repeat split; reflexivity).
+Qed.
+
+Section Ext.
+  Variable wa tm : bool.
+  Variable tx : itype.
+  Variables g g' : schema -> schema -> mres schema.
+  (* closure of g on the fragment (from the exactness theorem) and g' extends g *)
+  Hypothesis Gfrag : forall x y m, obj_frag wa tm tx x = true -> obj_frag wa tm tx y = true ->
+                                   g x y = MOk m -> obj_frag wa tm tx m = true.
+  Hypothesis Gext : forall x y, obj_frag wa tm tx x = true -> obj_frag wa tm tx y = true ->
+                                mdef (g x y) = true -> g' x y = g x y.
+
+  Lemma merge_ap_ext ap ap' :
+    opt_all (obj_frag wa tm tx) ap = true -> opt_all (obj_frag wa tm tx) ap' = true ->
+    mdef (merge_ap g ap ap') = true -> merge_ap g' ap ap' = merge_ap g ap ap'.
+  Proof.
+    destruct ap as [x|], ap' as [y|]; simpl; intros A B H; try reflexivity.
+    apply mbind_ext; [|reflexivity|exact H].
+    intros Hd. rewrite mdef_or_false in Hd. rewrite (Gext x y A B Hd). reflexivity.
+  Qed.
+
+  Lemma items_loop_ext mn mx P : forall k,
+    forallb (fun pr => obj_frag wa tm tx (fst pr) && obj_frag wa tm tx (snd pr)) P = true ->
+    mdef (items_loop g P k mn mx) = true -> items_loop g' P k mn mx = items_loop g P k mn mx.
+  Proof.
+    induction P as [|[x y] rest IH]; intros k F H; [reflexivity|].
+    simpl in F. apply andb_true_iff in F. destruct F as [Fxy Fr]. apply andb_true_iff in Fxy. destruct Fxy as [Fx Fy].
+    rewrite !items_loop_cons in *.
+    assert (Hd : mdef (g x y) = true).
+    { destruct (g x y); try reflexivity; simpl in H; discriminate H. }
+    rewrite (Gext x y Fx Fy Hd).
+    destruct (g x y) as [s| | |]; try reflexivity.
+    destruct (hitmax mx k); [reflexivity|].
+    apply mbind_ext; [|reflexivity|exact H].
+    intros Hd'. apply IH; assumption.
+  Qed.
+
+  Lemma fold_undef {A} (f : A -> schema -> mres A) l acc :
+    mdef acc = false -> mdef (fold_left (fun a s => mbind a (fun x => f x s)) l acc) = false.
+  Proof.
+    revert acc. induction l as [|s l IH]; intros acc H; [exact H|].
+    simpl. apply IH. destruct acc; simpl in *; congruence.
+  Qed.
+
+  Lemma fold_never l :
+    fold_left (fun a s => mbind a (fun x => g x s)) l MNever = MNever.
+  Proof. induction l; simpl; auto. Qed.
+  Lemma fold_never' l :
+    fold_left (fun a s => mbind a (fun x => g' x s)) l MNever = MNever.
+  Proof. induction l; simpl; auto. Qed.
+
+  Lemma fold_ext l : forall acc,
+    (forall x, acc = MOk x -> obj_frag wa tm tx x = true) -> forallb (obj_frag wa tm tx) l = true ->
+    mdef (fold_left (fun a s => mbind a (fun x => g x s)) l acc) = true ->
+    fold_left (fun a s => mbind a (fun x => g' x s)) l acc = fold_left (fun a s => mbind a (fun x => g x s)) l acc.
+  Proof.
+    induction l as [|s l IH]; intros acc Facc Fl H; [reflexivity|].
+    simpl in Fl. apply andb_true_iff in Fl. destruct Fl as [Fs Fl]. cbn [fold_left] in *.
+    destruct acc as [x| | |].
+    - cbn [mbind] in *.
+      assert (Hd : mdef (g x s) = true).
+      { destruct (mdef (g x s)) eqn:E; [reflexivity|]. rewrite (fold_undef _ l _ E) in H. discriminate H. }
+      rewrite (Gext x s (Facc x eq_refl) Fs Hd). apply IH; [|exact Fl|exact H].
+      intros m Em. eapply Gfrag; [apply (Facc x eq_refl) | exact Fs | exact Em].
+    - cbn [mbind]. rewrite fold_never, fold_never'. reflexivity.
+    - cbn [mbind] in H. rewrite (fold_undef _ l MPanic eq_refl) in H. discriminate H.
+    - cbn [mbind] in H. rewrite (fold_undef _ l MUnsupp eq_refl) in H. discriminate H.
+  Qed.
+
+  Lemma with_allof_ext so allo :
+    obj_frag wa tm tx so = true -> opt_all (forallb (obj_frag wa tm tx)) allo = true ->
+    mdef (with_allof g so allo) = true -> with_allof g' so allo = with_allof g so allo.
+  Proof.
+    destruct allo as [l|]; [|reflexivity]. simpl. intros Fso Fl H.
+    apply mbind_ext; [|reflexivity|exact H].
+    intros Hd. apply fold_ext; [intros x E; inversion E; subst; exact Fso | exact Fl | exact Hd].
+  Qed.
+
+  (* ---- the property loop: entries related pointwise *)
+  Definition erel (e e' : ustring * mres schema) : Prop :=
+    fst e = fst e' /\ (mdef (snd e) = true -> snd e' = snd e).
+
+  Lemma props_loop_ext req apm ps ps' :
+    Forall2 erel ps ps' ->
+    mdef (props_loop req apm ps) = true -> props_loop req apm ps' = props_loop req apm ps.
+  Proof.
+    intros HF. induction HF as [|[k r] [k' r'] ps ps' [Ek Er] HF IH]; intros H; [reflexivity|].
+    simpl in Ek, Er. subst k'.
+    assert (Hd : mdef r = true).
+    { destruct r; try reflexivity; simpl in H; discriminate H. }
+    rewrite (Er Hd). destruct r as [s| | |]; try reflexivity.
+    rewrite !props_loop_cons in *.
+    destruct (is_false s).
+    - destruct (mem_ustr k req); [reflexivity|].
+      destruct (ap_is_false apm); [apply IH; exact H|].
+      apply mbind_ext; [exact IH|reflexivity|exact H].
+    - apply mbind_ext; [exact IH|reflexivity|exact H].
+  Qed.
+
+  Lemma Forall2_map_same {A B} (R : B -> B -> Prop) (f f' : A -> B) l :
+    (forall x, In x l -> R (f x) (f' x)) -> Forall2 R (map f l) (map f' l).
+  Proof.
+    induction l as [|x r IH]; intros H; simpl; constructor.
+    - apply H. left. reflexivity.
+    - apply IH. intros y Hy. apply H. right. exact Hy.
+  Qed.
+
+  Lemma Forall2_refl_erel l : Forall2 erel l l.
+  Proof. induction l as [|x r IH]; constructor; [split; auto | exact IH]. Qed.
+
+  Lemma merge_obj_ext props req ap mnp mxp props' req' ap' mnp' mxp' :
+    forallb (fun kv => obj_frag wa tm tx (snd kv)) props = true ->
+    forallb (fun kv => obj_frag wa tm tx (snd kv)) props' = true ->
+    opt_all (obj_frag wa tm tx) ap = true -> opt_all (obj_frag wa tm tx) ap' = true ->
+    mdef (merge_obj g (props, req, ap, mnp, mxp) (props', req', ap', mnp', mxp')) = true ->
+    merge_obj g' (props, req, ap, mnp, mxp) (props', req', ap', mnp', mxp')
+    = merge_obj g (props, req, ap, mnp, mxp) (props', req', ap', mnp', mxp').
+  Proof.
+    intros Fa Fb Aa Ab. unfold merge_obj. cbv beta iota zeta.
+    destruct (obj_absent props req ap mnp mxp); [reflexivity|].
+    destruct (obj_absent props' req' ap' mnp' mxp'); [reflexivity|].
+    intros H. apply mbind_ext; [apply merge_ap_ext; assumption| |exact H].
+    intros apm _ H2. apply mbind_ext; [|reflexivity|exact H2].
+    apply props_loop_ext. apply Forall2_app; [|apply Forall2_refl_erel].
+    apply Forall2_map_same. intros [k sa] Hin. split; [reflexivity|]. simpl.
+    destruct (assoc k props') as [sb|] eqn:Eb; [|reflexivity].
+    intros Hd. rewrite mdef_or_false in Hd.
+    assert (Fsa : obj_frag wa tm tx sa = true) by (rewrite forallb_forall in Fa; apply (Fa (k, sa) Hin)).
+    assert (Fsb : obj_frag wa tm tx sb = true).
+    { apply assoc_In in Eb. rewrite forallb_forall in Fb. apply (Fb (k, sb) Eb). }
+    rewrite (Gext sa sb Fsa Fsb Hd). reflexivity.
+  Qed.
+
+  Lemma pad_frag its ai nn :
+    forallb (obj_frag wa tm tx) its = true -> opt_all (obj_frag wa tm tx) ai = true ->
+    forallb (obj_frag wa tm tx) (pad its ai nn) = true.
+  Proof.
+    intros Fi Fai. unfold pad. rewrite forallb_app, Fi. simpl.
+    apply forallb_forall. intros x Hx. apply repeat_spec in Hx. subst x.
+    destruct ai; [exact Fai | reflexivity].
+  Qed.
+
+  Lemma combine_frag A B :
+    forallb (obj_frag wa tm tx) A = true -> forallb (obj_frag wa tm tx) B = true ->
+    forallb (fun pr => obj_frag wa tm tx (fst pr) && obj_frag wa tm tx (snd pr)) (combine A B) = true.
+  Proof.
+    revert B. induction A as [|x A IH]; intros [|y B] FA FB; simpl in *; try reflexivity.
+    apply andb_true_iff in FA. destruct FA as [Fx FA]. apply andb_true_iff in FB. destruct FB as [Fy FB].
+    rewrite Fx, Fy. simpl. apply IH; assumption.
+  Qed.
+
+  Lemma merge_arr_ext ik items ai mni mxi uq ik' items' ai' mni' mxi' uq' :
+    shape_b wa tm ik items ai = true -> shape_b wa tm ik' items' ai' = true ->
+    forallb (obj_frag wa tm tx) items = true -> forallb (obj_frag wa tm tx) items' = true ->
+    opt_all (obj_frag wa tm tx) ai = true -> opt_all (obj_frag wa tm tx) ai' = true ->
+    mdef (merge_arr g (ik, items, ai, mni, mxi, uq) (ik', items', ai', mni', mxi', uq')) = true ->
+    merge_arr g' (ik, items, ai, mni, mxi, uq) (ik', items', ai', mni', mxi', uq')
+    = merge_arr g (ik, items, ai, mni, mxi, uq) (ik', items', ai', mni', mxi', uq').
+  Proof.
+    intros Sa Sb Fa Fb Fai Fai'. unfold merge_arr. cbv beta iota zeta.
+    destruct (arr_absent ik ai mni mxi uq); [reflexivity|].
+    destruct (arr_absent ik' ai' mni' mxi' uq'); [reflexivity|].
+    destruct (min_gt_max (choose N.max mni mni') (choose N.min mxi mxi')); [reflexivity|].
+    destruct (shape_cases' wa tm _ _ _ Sa) as [(-> & -> & ->)|[(-> & [s ->] & -> & Hw & Ht)|(-> & Hw & Ht)]];
+    destruct (shape_cases' wa tm _ _ _ Sb) as [(-> & -> & ->)|[(-> & [s' ->] & -> & Hw' & Ht')|(-> & Hw' & Ht')]];
+      try congruence; try reflexivity.
+    - (* single / single *)
+      simpl in Fa, Fb. rewrite andb_true_r in Fa, Fb. intros H.
+      apply mbind_ext; [|reflexivity|exact H]. intros Hd. apply Gext; assumption.
+    - (* tuple / tuple *)
+      intros H. apply mbind_ext; [| |exact H].
+      + intros Hd. apply items_loop_ext; [|exact Hd].
+        apply combine_frag; apply pad_frag; assumption.
+      + intros r _ H2. destruct (snd r); [|reflexivity].
+        apply mbind_ext; [|reflexivity|exact H2].
+        destruct ai, ai'; try reflexivity; intros Hd; apply merge_ap_ext; assumption.
+  Qed.
+End Ext.
+
+
+Section FuelStable.
+  Variable wa tm : bool.
+  Variable tx : itype.
+  Hypothesis Htx : tx_ok tx.
+  Variable D : defs.
+
+  (* any instantiation of the validity side will do: only the closure part of the exactness theorem is used *)
+  Local Notation nr := (fun _ _ : ustring => false).
+  Local Notation exact_at f := (merge_frag_exact nr nr draft07 [] 0 wa tm tx Htx D f).
+
+  Lemma merge_closed f x y m :
+    obj_frag wa tm tx x = true -> obj_frag wa tm tx y = true -> merge D f x y = MOk m -> obj_frag wa tm tx m = true.
+  Proof. intros Fx Fy E. pose proof (exact_at f x y Fx Fy) as H. rewrite E in H. apply H. Qed.
+
+  Lemma body_frag f ty enum cst ik items ai mni mxi uq props req ap mnp mxp
+        ty' enum' cst' nv' sv' ik' items' ai' mni' mxi' uq' props' req' ap' mnp' mxp'
+        tym ikm itm aim mnim mxim uqm pm rm apm mnm mxm em :
+    notype tx ty = true -> notype tx ty' = true ->
+    simple_enum enum = true -> opt_all simple_json cst = true ->
+    simple_enum enum' = true -> opt_all simple_json cst' = true ->
+    numv_is_none nv' = true -> strv_is_none sv' = true ->
+    shape_b wa tm ik items ai = true -> shape_b wa tm ik' items' ai' = true ->
+    zero_ok tm mni mxi = true -> zero_ok tm mni' mxi' = true ->
+    (arr_absent ik ai mni mxi uq || (wa && all_array ty) = true) ->
+    (arr_absent ik' ai' mni' mxi' uq' || (wa && all_array ty') = true) ->
+    forallb (obj_frag wa tm tx) items = true -> forallb (obj_frag wa tm tx) items' = true ->
+    opt_all (obj_frag wa tm tx) ai = true -> opt_all (obj_frag wa tm tx) ai' = true ->
+    (obj_absent props req ap mnp mxp || all_object ty = true) ->
+    (obj_absent props' req' ap' mnp' mxp' || all_object ty' = true) ->
+    uniq_keys props = true -> uniq_keys props' = true ->
+    forallb (fun kv => obj_frag wa tm tx (snd kv)) props = true ->
+    forallb (fun kv => obj_frag wa tm tx (snd kv)) props' = true ->
+    opt_all (obj_frag wa tm tx) ap = true -> opt_all (obj_frag wa tm tx) ap' = true ->
+    merge_ty ty ty' = Some tym ->
+    merge_arr (merge D f) (ik, items, ai, mni, mxi, uq) (ik', items', ai', mni', mxi', uq')
+      = MOk (ikm, itm, aim, mnim, mxim, uqm) ->
+    merge_obj (merge D f) (props, req, ap, mnp, mxp) (props', req', ap', mnp', mxp') = MOk (pm, rm, apm, mnm, mxm) ->
+    merge_enum enum cst enum' cst' = MOk em ->
+    obj_frag wa tm tx (SObj tym None em None nv' sv' ikm itm aim mnim mxim uqm pm rm apm mnm mxm None
+                            None None None None None None) = true.
+  Proof.
+    intros Nt Nt' Se Sc Se' Sc' Hn' Hs' Sh Sh' Zo Zo' Gaa Gab Fi Fi' Fai Fai' Ga Gb Ua Ub Fp Fp' Fap Fap' Et Ea Eo Ee.
+    pose proof (merge_obj_exact nr nr draft07 [] 0 wa tm tx (merge D f) (exact_at f)
+                                props req ap mnp mxp props' req' ap' mnp' mxp' Fp Fp' Fap Fap' Ua Ub) as Hobj.
+    pose proof (merge_arr_exact nr nr draft07 [] 0 wa tm tx (merge D f) (exact_at f)
+                                ik items ai mni mxi uq ik' items' ai' mni' mxi' uq' Sh Sh' Zo Zo' Fi Fi' Fai Fai') as Harr.
+    rewrite Eo in Hobj. rewrite Ea in Harr.
+    destruct Hobj as (Fpm & Am & Upm & Habs & _). destruct Harr as (Shm & Zom & Fim & Faim & Habsa & _).
+    pose proof (merge_ty_exact tx draft07 ty ty' JNull Htx Nt Nt') as Hty. rewrite Et in Hty. destruct Hty as [Ntm _].
+    pose proof (merge_enum_simple _ _ _ _ _ Ee Se Sc Se' Sc') as Sem.
+    apply frag_build; try assumption; try reflexivity.
+    - apply orb_true_iff in Gaa. apply orb_true_iff in Gab. apply orb_true_iff.
+      destruct Gaa as [Gaa|Gaa].
+      + destruct Gab as [Gab|Gab].
+        * left. apply Habsa; assumption.
+        * right. apply andb_true_iff in Gab. destruct Gab as [-> Gab]. simpl. eapply merge_ty_all_array; eauto.
+      + right. apply andb_true_iff in Gaa. destruct Gaa as [-> Gaa]. simpl. eapply merge_ty_all_array; eauto.
+    - apply orb_true_iff in Ga. apply orb_true_iff in Gb. apply orb_true_iff.
+      destruct Ga as [Ga|Ga].
+      + destruct Gb as [Gb|Gb].
+        * left. apply Habs; assumption.
+        * right. eapply merge_ty_all_object; eauto.
+      + right. eapply merge_ty_all_object; eauto.
+  Qed.
+
+  Lemma with_allof_closed f so allo m1 :
+    obj_frag wa tm tx so = true -> opt_all (forallb (obj_frag wa tm tx)) allo = true ->
+    with_allof (merge D f) so allo = MOk m1 -> obj_frag wa tm tx m1 = true.
+  Proof.
+    intros Fso Fal E.
+    pose proof (with_allof_exact nr nr draft07 [] 0 wa tm tx (merge D f) (exact_at f) so allo
+                                 (fun v => validx nr nr draft07 [] 0 so v)
+                                 (conj Fso (fun v _ => eq_refl)) Fal) as H.
+    rewrite E in H. apply H.
+  Qed.
+
+  Theorem merge_fuel_step : forall f a b,
+    obj_frag wa tm tx a = true -> obj_frag wa tm tx b = true ->
+    mdef (merge D f a b) = true -> merge D (S f) a b = merge D f a b.
+  Proof.
+    induction f as [|f IH]; intros a b Fa Fb H; [discriminate H|].
+    destruct a as [ba|ty fmt enum cst nv sv ik items ai mni mxi uq props req ap mnp mxp allo anyo oneo no ref d t].
+    { destruct ba; destruct b as [[|]|]; reflexivity. }
+    destruct b as [[|]|ty' fmt' enum' cst' nv' sv' ik' items' ai' mni' mxi' uq' props' req' ap' mnp' mxp' allo' anyo' oneo' no' ref' d' t'];
+      [reflexivity | reflexivity |].
+    pose proof (frag_shape wa tm tx _ _ _ _ _ _ _ _ _ _ _ _ _ _ _ _ _ _ _ _ _ _ _ _ Fa) as Sa.
+    pose proof (frag_shape wa tm tx _ _ _ _ _ _ _ _ _ _ _ _ _ _ _ _ _ _ _ _ _ _ _ _ Fb) as Sb.
+    destruct Sa as (-> & -> & -> & -> & -> & Nt & Se & Sc & Hn & Hs & Sh & Zo & Gaa & Fi & Fai & Ga & Ua & Fp & Fap & Fal).
+    destruct Sb as (-> & -> & -> & -> & -> & Nt' & Se' & Sc' & Hn' & Hs' & Sh' & Zo' & Gab & Fi' & Fai' & Gb & Ub & Fp' & Fap' & Fal').
+    rewrite (merge_frag_eq D (S f)). rewrite (merge_frag_eq D f) in H |- *.
+    set (g := merge D f) in *. set (g' := merge D (S f)) in *.
+    assert (Gfrag : forall x y m, obj_frag wa tm tx x = true -> obj_frag wa tm tx y = true ->
+                                  g x y = MOk m -> obj_frag wa tm tx m = true)
+      by (intros x y m; apply merge_closed).
+    assert (Gext : forall x y, obj_frag wa tm tx x = true -> obj_frag wa tm tx y = true ->
+                               mdef (g x y) = true -> g' x y = g x y)
+      by (intros x y Fx Fy Hd; apply IH; assumption).
+    destruct (merge_ty ty ty') as [tym|] eqn:Et; [|reflexivity].
+    rewrite (merge_nv_none nv nv' Hn), (merge_sv_none sv sv' Hs) in *. cbn [mbind] in *.
+    apply mbind_ext; [| |exact H].
+    { intros Hd. apply (merge_arr_ext wa tm tx g g' Gext); assumption. }
+    intros [[[[[ikm itm] aim] mnim] mxim] uqm] Ea H2.
+    apply mbind_ext; [| |exact H2].
+    { intros Hd. apply (merge_obj_ext wa tm tx g g' Gext); assumption. }
+    intros [[[[pm rm] apm] mnm] mxm] Eo H3.
+    apply mbind_ext; [reflexivity| |exact H3].
+    intros em Ee H4.
+    assert (Fbody : obj_frag wa tm tx (SObj tym None em None nv' sv' ikm itm aim mnim mxim uqm pm rm apm mnm mxm None
+                                            None None None None None None) = true).
+    { eapply (body_frag f ty enum cst ik items ai mni mxi uq props req ap mnp mxp
+                        ty' enum' cst' nv' sv' ik' items' ai' mni' mxi' uq' props' req' ap' mnp' mxp'); eassumption. }
+    apply mbind_ext; [| |exact H4].
+    { intros Hd. apply (with_allof_ext wa tm tx g g' Gfrag Gext); assumption. }
+    intros m1 E1 H5.
+    apply mbind_ext; [|reflexivity|exact H5].
+    intros Hd. apply (with_allof_ext wa tm tx g g' Gfrag Gext); try assumption.
+    exact (with_allof_closed f _ allo m1 Fbody Fal E1).
+  Qed.
+
+  Theorem merge_fuel_stable f f' a b :
+    f <= f' -> obj_frag wa tm tx a = true -> obj_frag wa tm tx b = true ->
+    mdef (merge D f a b) = true -> merge D f' a b = merge D f a b.
+  Proof.
+    intros Hle Fa Fb Hd. induction Hle as [|k Hle IH]; [reflexivity|].
+    rewrite <- IH. apply merge_fuel_step; try assumption. rewrite IH. exact Hd.
+  Qed.
+
+  Theorem merge_all_fuel_stable f f' L :
+    f <= f' -> forallb (obj_frag wa tm tx) L = true ->
+    mdef (merge_all D f L) = true -> merge_all D f' L = merge_all D f L.
+  Proof.
+    intros Hle HF Hd. destruct L as [|a [|b rest]]; try reflexivity.
+    cbn [merge_all] in *. simpl in HF. apply andb_true_iff in HF. destruct HF as [Fa HF].
+    apply andb_true_iff in HF. destruct HF as [Fb HF].
+    assert (Gext : forall x y, obj_frag wa tm tx x = true -> obj_frag wa tm tx y = true ->
+                               mdef (merge D f x y) = true -> merge D f' x y = merge D f x y)
+      by (intros x y Fx Fy Hxy; apply merge_fuel_stable; assumption).
+    assert (Hab : mdef (merge D f a b) = true).
+    { destruct (mdef (merge D f a b)) eqn:E; [reflexivity|].
+      rewrite (fold_undef (merge D f) rest _ E) in Hd. discriminate Hd. }
+    rewrite (Gext a b Fa Fb Hab).
+    apply (fold_ext wa tm tx (merge D f) (merge D f')); try assumption.
+    - intros x y m Fx Fy E. exact (merge_closed f x y m Fx Fy E).
+    - intros x E. exact (merge_closed f a b x Fa Fb E).
+  Qed.
+End FuelStable.
+
+Lemma mdef_defined (r : mres schema) : mdef r = defined r.
+Proof. destruct r; reflexivity. Qed.
+
+(* permutation equivalence with independent fuels: whenever both outcomes are defined, at whatever fuels *)
+Theorem merge_all_perm_equiv_fuels re_match fmt_ok o DV n wa tm tx D f f' L L' v :
+  tx_ok tx -> Permutation L L' -> forallb (obj_frag wa tm tx) L = true ->
+  defined (merge_all D f L) = true -> defined (merge_all D f' L') = true -> inst_ok wa v = true ->
+  inst_set re_match fmt_ok o DV n (merge_all D f L) v = inst_set re_match fmt_ok o DV n (merge_all D f' L') v.
+Proof.
+  intros Htx HP HF D1 D2 Wv.
+  assert (HF' : forallb (obj_frag wa tm tx) L' = true) by (rewrite <- (forallb_perm _ _ _ HP); exact HF).
+  rewrite <- mdef_defined in D1, D2.
+  pose proof (merge_all_fuel_stable wa tm tx Htx D f (Nat.max f f') L (Nat.le_max_l f f') HF D1) as E1.
+  pose proof (merge_all_fuel_stable wa tm tx Htx D f' (Nat.max f f') L' (Nat.le_max_r f f') HF' D2) as E2.
+  rewrite <- E1, <- E2.
+  apply (merge_all_perm_equiv_frag re_match fmt_ok o DV n wa tm tx Htx D (Nat.max f f') L L' v HP HF); try exact Wv.
+  - rewrite E1, <- mdef_defined. exact D1.
+  - rewrite E2, <- mdef_defined. exact D2.
+Qed.
